@@ -137,13 +137,9 @@ package jobconfigcontroller
 //@   ensures typeis(obj, *execution.Job) ==> result1 == nil && result0 == unbox(obj, *execution.Job)
 //@   ensures result1 == nil ==> result0 != nil
 //@   ensures result1 != nil ==> result0 == nil
-// ASSUMED (owner reference + UID label checks against the JobConfig cache): ownerOf is the owner JobConfig the lookup resolves
-// (nil when the Job has no controller owner or the lookup fails its sanity checks)
-//@ pure ownerOf(rj *execution.Job) *execution.JobConfig
-//@ extern func github.com/furiko-io/furiko/pkg/execution/util/jobconfig.LookupJobOwner
-//@   params rj, lister
-//@   ensures result1 == nil ==> result0 == ownerOf(rj)
-//@   ensures result1 != nil ==> result0 == nil && ownerOf(rj) == nil
+// jobconfig.ownerOf(rj, ns) is the owner JobConfig the lookup resolves in namespace ns (nil when the Job has no JobConfig
+// controller owner or the lookup fails its sanity checks); LookupJobOwner is verified against that definition in
+// pkg/execution/util/jobconfig (no longer assumed here).
 
 //@ func InformerWorker.enqueueObject
 //@   params w, obj
@@ -159,8 +155,8 @@ package jobconfigcontroller
 //@   tags C15
 //@   requires w != nil
 //@   modifies addN, addKey
-//@   ensures [C15] job-event-requeues-the-owner-jobconfig: typeis(obj, *execution.Job) && ownerOf(unbox(obj, *execution.Job)) != nil ==> addN == old(addN) + 1
-//@        && addKey[old(addN)] == iface(nsname(ownerOf(unbox(obj, *execution.Job)).Namespace, ownerOf(unbox(obj, *execution.Job)).Name))
+//@   ensures [C15] job-event-requeues-the-owner-jobconfig: typeis(obj, *execution.Job) && jobconfig.ownerOf(unbox(obj, *execution.Job), unbox(obj, *execution.Job).Namespace) != nil ==> addN == old(addN) + 1
+//@        && addKey[old(addN)] == iface(nsname(jobconfig.ownerOf(unbox(obj, *execution.Job), unbox(obj, *execution.Job).Namespace).Namespace, jobconfig.ownerOf(unbox(obj, *execution.Job), unbox(obj, *execution.Job).Namespace).Name))
 //@   ensures [C15] at-most-one: addN == old(addN) || addN == old(addN) + 1
 
 // The handlers NewInformerWorker registers. $1 is the UpdateFunc for JobConfigs, $2 the UpdateFunc for Jobs: every update
@@ -181,8 +177,8 @@ package jobconfigcontroller
 //@   tags C15
 //@   requires w != nil
 //@   modifies addN, addKey
-//@   ensures [C15] every-job-update-requeues-the-owner-jobconfig: typeis(newObj, *execution.Job) && ownerOf(unbox(newObj, *execution.Job)) != nil ==> addN == old(addN) + 1
-//@        && addKey[old(addN)] == iface(nsname(ownerOf(unbox(newObj, *execution.Job)).Namespace, ownerOf(unbox(newObj, *execution.Job)).Name))
+//@   ensures [C15] every-job-update-requeues-the-owner-jobconfig: typeis(newObj, *execution.Job) && jobconfig.ownerOf(unbox(newObj, *execution.Job), unbox(newObj, *execution.Job).Namespace) != nil ==> addN == old(addN) + 1
+//@        && addKey[old(addN)] == iface(nsname(jobconfig.ownerOf(unbox(newObj, *execution.Job), unbox(newObj, *execution.Job).Namespace).Namespace, jobconfig.ownerOf(unbox(newObj, *execution.Job), unbox(newObj, *execution.Job).Namespace).Name))
 //@   ensures [C15] at-most-one: addN == old(addN) || addN == old(addN) + 1
 
 //@ func NewInformerWorker
